@@ -105,6 +105,7 @@ macro_rules! mismatch_harness {
 mismatch_harness!(c08_q_nn_prologue, Pat::NN, 0, Item::Prologue, 1);
 mismatch_harness!(c08_q_nn_name, Pat::NN, 0, Item::NameByte, 1);
 mismatch_harness!(c08_q_nnpsk0_psk, Pat::NN, 1, Item::Psk(0), 0);
+mismatch_harness!(c08_q_nnpsk0psk1_second_psk, Pat::NN, 3, Item::Psk(1), 0);
 mismatch_harness!(c08_q_nk_rs, Pat::NK, 0, Item::RsOfInitiator, 0);
 mismatch_harness!(c08_q_kn_rs, Pat::KN, 0, Item::RsOfResponder, 1);
 mismatch_harness!(c08_q_n_prologue, Pat::N, 0, Item::Prologue, 0);
